@@ -95,6 +95,11 @@ class C16(Prop):
         for t in range(4000 * f):
             yield {"k": "align", "what": "clifford2" if t % 4 else "pair", "n": 2 if t % 8 else 1, "seed": base + 5000 + t, "pkg": "py"}
         yield {"k": "birthday", "n": 3, "M": 6000, "seed": base + 9}
+        # larger registers: the image of X_1 / Z_1 under a uniform Clifford is a uniform non-identity string, so every
+        # letter appears on every qubit in a quarter of the samples (up to 4^-N); per-qubit letter tallies
+        for n in (7, 33, 40, 66):
+            yield {"k": "marginal", "name": "random_clifford_map", "n": n, "M": 320, "seed": base + 300 + n, "pkg": "py"}
+        yield {"k": "marginal", "name": "random_clifford_map", "n": 12, "M": 320, "seed": base + 312}
         yield {"k": "coin", "seed": base + 6, "M": 4000 * f, "pkg": "py"}
         yield {"k": "bitsigns", "seed": base + 7, "M": 2000 * f, "pkg": "py"}
         yield {"k": "resample", "seed": base + 8}
@@ -174,6 +179,22 @@ class C16(Prop):
                     seen.add(key)
                 return [{"op": "birthday", "n": scn["n"], "M": scn["M"], "space": 1451520, "distinct": len(seen),
                          "collisions": scn["M"] - len(seen), "outputs": outs}]
+            if k == "marginal":
+                be.seed(scn["seed"])
+                n, M = scn["n"], scn["M"]
+                cnt = [[[0, 0, 0, 0] for _ in range(n)] for _row in range(2)]
+                signs = [0, 0]
+                for _ in range(M):
+                    m = be.p_list(St.random_clifford_map(n))
+                    for row in range(2):
+                        w = m[row]
+                        for q in range(n):
+                            if w[q] in (0, 1, 2, 3):
+                                cnt[row][q][w[q]] += 1
+                    for w in m:
+                        signs[1 if w[-1] == 2 else 0] += 1
+                return [{"op": "marginal", "name": scn["name"], "n": n, "M": M, "cnt": cnt},
+                        {"op": "fair", "name": "random_clifford_map signs n=%d" % n, "c0": signs[0], "c1": signs[1]}]
             if k == "coin":
                 be.seed(scn["seed"])
                 c = [0, 0]
